@@ -22,12 +22,12 @@ fn sdk_market(bytes: &[u8]) -> sdk::Market {
     bytemuck::pod_read_unaligned(&bytes[8..8 + std::mem::size_of::<sdk::Market>()])
 }
 
-fn model_of(db: &Db, m: &MarketKeys) -> MarketModel {
+pub(crate) fn model_of(db: &Db, m: &MarketKeys) -> MarketModel {
     let acc = db.get(&m.market);
     MarketModel::from_parts(Arc::new(sdk_market(&acc.data)), world::mint_supply(db, &m.market_token))
 }
 
-fn set_now(ts: i64) {
+pub(crate) fn set_now(ts: i64) {
     W::set_time(ts);
     gmsol_programs::model::clock_verif::set_now(Some(ts));
 }
